@@ -346,6 +346,10 @@ def random_config(rng, optimiser=None, multi=None):
     multi = rng.random() < 0.35 if multi is None else multi
     if multi:
         metrics = rng.choice([['size', 'depth'], ['balance', 'label'], ['plateau', 'neg_size'], ['label', 'depth', 'size']])
+    elif rng.random() < 0.3:
+        # single objective with supplementary metrics: ties on the primary value are decided by the others
+        metrics = rng.choice([['plateau', 'size'], ['plateau', 'neg_size'], ['label', 'depth'], ['balance', 'size'],
+                              ['plateau', 'label', 'size']])
     else:
         metrics = [rng.choice(['size', 'neg_size', 'depth', 'plateau', 'label', 'balance'])]
     cfg = {
